@@ -17,8 +17,13 @@ from . import chain as CH   # noqa: E402
 CH.extend(CONTRACTS, CH.readers() + CH.plumbing() + CH.tables() + CH.wrapper())
 
 
-def EXTRA():
+def _EXTRA0():
     # return_logprobs / return_all_logprobs reach the function that attaches the values
     from jvc import effects
     return [r for r in effects.check_option_forwarding(["thejoker.thejoker.TheJoker.rejection_sample", "thejoker.thejoker.TheJoker.iterative_rejection_sample"],
                                                        PROPERTY) if "logprobs" in r["name"]]
+
+
+def EXTRA():
+    from . import chain as _CHX
+    return list(_EXTRA0()) + _CHX.frame_effects(PROPERTY)
